@@ -558,8 +558,23 @@ func secretFields(t types.Type, path string, seen map[types.Type]bool, out *[]st
 		for i := 0; i < u.NumFields(); i++ {
 			f := u.Field(i)
 			ln := strings.ToLower(f.Name())
-			if b, ok := f.Type().Underlying().(*types.Basic); ok && b.Info()&types.IsString != 0 &&
-				(strings.Contains(ln, "password") || strings.Contains(ln, "secret")) {
+			// a string, or a list / map of strings or bytes, whose name says secret
+			holdsText := func(t types.Type) bool {
+				switch x := t.Underlying().(type) {
+				case *types.Basic:
+					return x.Info()&types.IsString != 0
+				case *types.Slice:
+					if b, ok := x.Elem().Underlying().(*types.Basic); ok {
+						return b.Info()&types.IsString != 0 || b.Kind() == types.Byte || b.Kind() == types.Uint8
+					}
+				case *types.Map:
+					if b, ok := x.Elem().Underlying().(*types.Basic); ok {
+						return b.Info()&types.IsString != 0
+					}
+				}
+				return false
+			}
+			if holdsText(f.Type()) && (strings.Contains(ln, "password") || strings.Contains(ln, "secret")) {
 				*out = append(*out, path+"."+f.Name())
 				continue
 			}
@@ -620,16 +635,38 @@ func c44Extra(r *Run) error {
 					n++
 					c := r.Prog.ContractFor(obj.FullName(), p)
 					ok2 := false
+					var uncovered []string
 					if c != nil && !c.Trusted && propListed(c.Opts["props"], r.Prop) {
+						text := ""
 						for _, a := range c.Anchored {
 							if a.Kind == "assert" && a.AnchorKind == "call" && a.AnchorName == "util.WriteJSON" && (a.AnchorOrd == 0 || a.AnchorOrd == ord) {
 								ok2 = true
+								text += " " + a.Src
 							}
+						}
+						// every secret-named field must be spoken of by name in those assertions ("Password" does not
+						// speak for "PasswordHistory")
+						for _, fp := range fields {
+							name := fp[strings.LastIndex(fp, ".")+1:]
+							found := false
+							for _, tok := range strings.FieldsFunc(text, func(r rune) bool {
+								return !(r == '_' || r >= '0' && r <= '9' || r >= 'a' && r <= 'z' || r >= 'A' && r <= 'Z')
+							}) {
+								if tok == name {
+									found = true
+								}
+							}
+							if !found {
+								uncovered = append(uncovered, fp)
+							}
+						}
+						if len(uncovered) > 0 {
+							ok2 = false
 						}
 					}
 					r.table(fmt.Sprintf("C44/secret-bearing-response[%s#%d]", shortFuncName(obj.FullName()), ord), ok2,
 						"a response body whose type can hold a secret-named field is written only under an assertion that the field is elided",
-						fmt.Sprintf("%s: body type %s, secret fields %v", r.Prog.Fset.Position(ce.Pos()), types.TypeString(bt, nil), fields))
+						fmt.Sprintf("%s: body type %s, secret fields %v; not named in the assertions: %v", r.Prog.Fset.Position(ce.Pos()), types.TypeString(bt, nil), fields, uncovered))
 					return true
 				})
 			}
@@ -638,6 +675,7 @@ func c44Extra(r *Run) error {
 	if n == 0 {
 		r.table("C44/secret-bearing-response", false, "no secret-bearing response found (scan broken?)", "")
 	}
+	c44DecryptCensus(r)
 	return nil
 }
 
